@@ -20,11 +20,12 @@ struct Cfg {
     platform: u8,                 // 0 = no env dir, 1 = rich env dir
     store: &'static str,          // absent | valid | malformed | dangling | binary (not UTF-8) | directory | loop (symlink to itself)
     plan_file: &'static str,      // ok | missing | binary
+    same_len: bool,               // pre-existing outputs with the same LENGTH as the new ones, other bytes
     blocked: &'static str,        // "" or the name of an output file under <layers> whose place is taken by a NON-EMPTY DIRECTORY (writing it fails)
 }
 impl Cfg {
     fn base(exe: &'static str) -> Cfg {
-        Cfg { exe, argc_delta: 0, toml: "ok", missing_var: "", behaviour: "pass", parts: vec![], preexisting: false, platform: 1, store: "absent", plan_file: "ok", blocked: "" }
+        Cfg { exe, argc_delta: 0, toml: "ok", missing_var: "", behaviour: "pass", parts: vec![], preexisting: false, platform: 1, store: "absent", plan_file: "ok", same_len: false, blocked: "" }
     }
 }
 fn hex(b: &[u8]) -> String { b.iter().map(|x| format!("{x:02x}")).collect() }
@@ -111,6 +112,12 @@ fn run_one(exe_rtbp: &Path, c: &Cfg, r: &mut Report) {
         fs::create_dir_all(layers.join("somelayer")).unwrap();
         fs::write(layers.join("somelayer.toml"), b"[types]\nlaunch = true\n").unwrap();
     }
+    if c.same_len {
+        // what an earlier build left has exactly the LENGTH of what this build writes, but other bytes
+        for (i, sfx) in ["cdx.json", "spdx.json", "syft.json"].iter().enumerate() { fs::write(layers.join(format!("build.sbom.{sfx}")), format!("BUILD_{i}")).unwrap(); fs::write(layers.join(format!("launch.sbom.{sfx}")), format!("LAUNCH_{i}")).unwrap(); }
+        let plan = libcnb::data::build_plan::BuildPlanBuilder::new().provides("witness").requires("witness").build();
+        fs::write(&plan_out, toml::to_string(&plan).unwrap().replace("witness", "WITNESS")).unwrap();
+    }
     if !c.blocked.is_empty() { fs::create_dir_all(layers.join(c.blocked).join("occupied")).unwrap(); }
     let exe_link = bin.join(c.exe);
     symlink(exe_rtbp, &exe_link).unwrap();
@@ -154,6 +161,15 @@ fn run_one(exe_rtbp: &Path, c: &Cfg, r: &mut Report) {
     } else if c.exe == "detect" {
         let want = if c.behaviour == "fail" { 100 } else { 0 };
         if code != want || log != ["detect"] { fail("detect_code", "detect exit status", format!("code {want}, log [detect]"), format!("code {code}, log {log:?}")); }
+        if c.behaviour == "pass_orplan" {
+            // literal expectation (generic TOML reader below would accept any key order): empty head, one alternative
+            let plan = libcnb::data::build_plan::BuildPlanBuilder::new().or().provides("jdk").requires("jdk").build();
+            let text = toml::to_string(&plan).unwrap();
+            let v: toml::Value = toml::from_str(&text).unwrap();
+            if v.get("or").and_then(|o| o.as_array()).map(|a| a.len()) != Some(1) { fail("harness", "oracle: the or-plan serialises with one alternative", "1 alternative".into(), text.clone()); }
+            expected_after.insert(PathBuf::from("plan-out.toml"), format!("file:{}", hex(text.as_bytes())));
+        }
+        if c.behaviour == "pass_emptyplan" { expected_after.insert(PathBuf::from("plan-out.toml"), format!("file:{}", hex(toml::to_string(&libcnb::data::build_plan::BuildPlan::new()).unwrap().as_bytes()))); }
         if c.behaviour == "pass_plan" {
             let plan = libcnb::data::build_plan::BuildPlanBuilder::new().provides("witness").requires("witness").build();
             expected_after.insert(PathBuf::from("plan-out.toml"), format!("file:{}", hex(toml::to_string(&plan).unwrap().as_bytes())));
@@ -243,6 +259,9 @@ pub fn runtime(thorough: bool) -> Report {
     } } } }
     for st in ["malformed", "dangling", "valid", "binary", "directory", "loop", "written_empty"] { for parts in [vec![], vec!["store"]] { let mut c = Cfg::base("build"); c.store = st; c.parts = parts; cfgs.push(c); } }
     for pf in ["missing", "binary"] { let mut c = Cfg::base("build"); c.plan_file = pf; cfgs.push(c); }
+    for b in ["pass_orplan", "pass_emptyplan"] { for pre in [false, true] { let mut c = Cfg::base("detect"); c.behaviour = b; c.preexisting = pre; cfgs.push(c); } }
+    { let mut c = Cfg::base("detect"); c.behaviour = "pass_plan"; c.same_len = true; cfgs.push(c); }
+    { let mut c = Cfg::base("build"); c.parts = vec!["b0", "b1", "b2", "l0", "l1", "l2"]; c.same_len = true; cfgs.push(c); }
     // one output of several cannot be written: the first / middle / last SBOM of a kind, launch.toml
     for (blocked, parts) in [("build.sbom.cdx.json", vec!["b0", "b1", "b2"]), ("build.sbom.spdx.json", vec!["b0", "b1", "b2"]), ("build.sbom.syft.json", vec!["b0", "b1", "b2"]),
                              ("launch.sbom.cdx.json", vec!["l0", "l1", "l2", "launch"]), ("launch.sbom.spdx.json", vec!["l0", "l1"]), ("launch.toml", vec!["launch", "store", "b0"])] {   // (store.toml is also an INPUT: a directory in its place is the store case "directory")
